@@ -421,7 +421,13 @@ func commentLinesFrom(commentGroups ...*ast.CommentGroup) (comments []string) {
 			continue
 		}
 
-		for _, line := range strings.Split(strings.TrimSpace(commentGroup.Text()), "\n") {
+		text := strings.TrimSpace(commentGroup.Text())
+		if text == "" {
+			// only directives or empty comments: no lines
+			continue
+		}
+
+		for _, line := range strings.Split(text, "\n") {
 			// skip go: prefix
 			if strings.HasPrefix(line, "go:") {
 				continue
